@@ -47,7 +47,7 @@ def gen(rng, hazards=()):
         return pin[0]
 
     for i in range(n_lcd):
-        cols = rng.choice([16, 16, 20, 8, 40, 1, 2, rng.randint(1, 40)])
+        cols = rng.choice([16, 16, 20, 8, 40, 1, 2, rng.randint(1, 40), 3, 5, 7, 15, 19, 9])   # (odd widths: centring splits an odd number of blanks)
         rows = rng.choice([2, 2, 4, 1, rng.randint(1, 4)])
         i2c = rng.random() < 0.4
         bl = None
